@@ -46,6 +46,8 @@ def finalize(agg, tier):
             out.append("no arithmetic operation ran on back-end " + be)
         if not c.get("montgomery_pow:" + be) and be == "custom":
             out.append("the custom back-end's Montgomery exponentiation was never reached")
+        if not c.get("near_square_operands:" + be):
+            out.append("no near-square operand was offered to sqrt() of back-end " + be)
         if not c.get("carry_chain_operands:" + be):
             out.append("no carry-chain operand was offered to back-end " + be)
         for n in ("history_steps", "history_inplace_steps", "history_pool_checks"):
@@ -153,6 +155,9 @@ def arith(spec, ctx):
         op = ops[n % len(ops)]
         n += 1
         args = intops.gen_args(rng, intops.OPS[op][0])
+        if op in ("sqrt", "is_perfect_square") and rng.random() < 0.5:
+            args[0] = intops.near_square(rng)
+            ctx.count("near_square_operands:" + be)
         # make related operands likely: equal to / multiple of the modulus, equal operands
         if len(args) >= 2 and isinstance(args[-1], int) and isinstance(args[0], int) and rng.random() < 0.1:
             args[0] = rng.choice([args[-1], -args[-1], args[-1] * 3, args[-1] + 1, args[-1] - 1])
